@@ -7,9 +7,11 @@ full resync (`doFullResync`) and delta application (`applyUpdates`: delete owned
 not desired, replace desired routes that differ) with per-route netlink failures and the inline
 retry of `Apply`.
 
-Not modelled: per-interface rescans (`ifacesToRescan`; the harness requests a full resync after
-every interface event), grace periods, static ARP, conntrack-owner tracking, multi-path routes,
-IPv6, TOS/priority in the route key, netlink EINTR retries.  The kernel-route payload other than
+Per-interface rescans (`ifacesToRescan`, `resyncIface`) are modelled (a failed route listing keeps the
+interface queued, as repaired in /repo a84de56).
+Not modelled: grace periods, static ARP, conntrack-owner tracking, multi-path routes, IPv6,
+TOS/priority in the route key, netlink EINTR retries; the interface monitor and the kernel are assumed
+to report the same interface states.  The kernel-route payload other than
 interface index and gateway (type/scope/flags/src/mtu) is an opaque `kind` string computed from the
 target type by the harness.
 Core Lean only.
@@ -27,6 +29,8 @@ def keys (m : Map α) : List String := m.map (·.1)
 end Map
 
 def sortS (l : List String) : List String := l.mergeSort (fun a b => a ≤ b)
+def sAdd (s : List String) (x : String) : List String := if x ∈ s then s else s ++ [x]
+def sErase (s : List String) (x : String) : List String := s.filter (· != x)
 def hasPrefix (s p : String) : Bool := p.toList.isPrefixOf s.toList
 
 /-- A route in the kernel (`kernelRoute` + protocol), keyed by destination CIDR. -/
@@ -75,6 +79,7 @@ structure RT where
   wants : List Want := []           -- ifaceToRoutes
   dp : Map KRoute := []             -- kernelRoutes.Dataplane()
   fullResync : Bool := true
+  rescan : List String := []        -- ifacesToRescan
 deriving Repr, Inhabited
 
 def RT.ifaceName (t : RT) (idx : Nat) : Option String :=
@@ -124,8 +129,18 @@ def RT.routeRemove (t : RT) (cls : Nat) (iface cidr : String) : RT :=
 /-- `OnIfaceStateChanged`. -/
 def RT.setIface (t : RT) (name : String) (i : Option Iface) : RT :=
   match i with
-  | some i => { t with ifaces := t.ifaces.set name i }
-  | none => { t with ifaces := t.ifaces.erase name }
+  | some i =>
+    { t with ifaces := t.ifaces.set name i, rescan := if i.up then sAdd t.rescan name else t.rescan }
+  | none => { t with ifaces := t.ifaces.erase name, rescan := sErase t.rescan name }
+
+/-- `refreshAllIfaceStates`: every link whose state differs from what we recorded is reported through
+`OnIfaceStateChanged` (which queues it for a rescan when it is up); interfaces that disappeared are dropped. -/
+def RT.refreshAll (t : RT) (kif : Map Iface) : RT :=
+  let t := (sortS kif.keys.eraseDups).foldl (fun t n =>
+    match kif.get n with
+    | some ki => if t.ifaces.get n == some ki then t else t.setIface n (some ki)
+    | none => t) t
+  (sortS t.ifaces.keys.eraseDups).foldl (fun t n => if kif.has n then t else t.setIface n none) t
 
 abbrev Kernel := Map KRoute
 
@@ -134,12 +149,13 @@ structure Fails where
   routeList : Bool := false
   replace : Bool := false
   del : Bool := false
+  linkByName : Bool := false
 deriving Repr, Inhabited
 
 structure W where
   t : RT
   K : Kernel := []
-  kif : Map Iface := []     -- the kernel's interfaces (what LinkList returns)
+  kif : Map Iface := []     -- the kernel's interfaces (what LinkList / LinkByName return)
   f : Fails := {}
 deriving Repr, Inhabited
 
@@ -148,42 +164,122 @@ the routes we own.  `true` = error. -/
 def W.fullResync (w : W) : W × Bool :=
   if w.f.linkList then ({ w with f := { w.f with linkList := false } }, true)
   else
-    let t := { w.t with ifaces := w.kif }
+    let t := w.t.refreshAll w.kif
     if w.f.routeList then ({ w with t := t, f := { w.f with routeList := false } }, true)
     else
-      ({ w with t := { t with dp := w.K.filter (fun p => t.owns p.2), fullResync := false } }, false)
+      ({ w with t := { t with dp := w.K.filter (fun p => t.owns p.2), fullResync := false, rescan := [] } }, false)
+
+/-- `resyncIface`: refresh one interface and the routes on it.  `true` = it returns an error (the
+interface stays queued): a failing `LinkByName`, or a failing route listing while the interface is up. -/
+def W.resyncIface (w : W) (name : String) : W × Bool :=
+  if w.f.linkByName then ({ w with f := { w.f with linkByName := false } }, true)
+  else
+    match w.kif.get name with
+    | none => ({ w with t := w.t.setIface name none }, false)
+    | some ki =>
+      let t := w.t.setIface name (some ki)
+      if w.f.routeList then
+        -- the listing failed: an error (the interface stays queued) unless the interface is down in the kernel
+        ({ w with t := t, f := { w.f with routeList := false } }, ki.up)
+      else
+        -- routes on this interface that pass `routeIsOurs` (only these count as "seen")
+        let seen := w.K.filter (fun p => p.2.ifindex == ki.idx && t.owns p.2)
+        let dp1 := seen.foldl (fun m p => m.set p.1 p.2) t.dp
+        let t1 := { t with dp := dp1 }
+        let missing := ((t.wants.filter (fun x => x.iface == name)).map (·.cidr)).eraseDups.filter (fun c =>
+          !(Map.has seen c) && (match t1.desired c with | some r => r.ifindex == ki.idx | none => false))
+        ({ w with t := { t1 with dp := missing.foldl (fun m c => m.erase c) dp1 } }, false)
+
+/-- `resyncIndividualInterfaces`. -/
+def W.resyncIfaces (w : W) : W :=
+  (sortS w.t.rescan).foldl (fun w name =>
+    let r := w.resyncIface name
+    if r.2 then r.1 else { r.1 with t := { r.1.t with rescan := sErase r.1.t.rescan name } }) w
+
+/-- One deletion of the deletion pass of `applyUpdates`. -/
+def W.delStep (acc : W × Bool) (k : String) : W × Bool :=
+  if acc.1.f.del then ({ acc.1 with f := { acc.1.f with del := false } }, true)
+  else ({ acc.1 with K := acc.1.K.erase k, t := { acc.1.t with dp := acc.1.t.dp.erase k } }, acc.2)
 
 /-- Deletion pass of `applyUpdates` (canonical order; at most one injected failure). -/
 def W.deletePass (w : W) : W × Bool :=
-  let dels := sortS ((w.t.dp.keys.filter (fun k => (w.t.desired k).isNone)).eraseDups)
-  dels.foldl (fun (acc : W × Bool) k =>
-    let (w, err) := acc
-    if w.f.del then ({ w with f := { w.f with del := false } }, true)
-    else ({ w with K := w.K.erase k, t := { w.t with dp := w.t.dp.erase k } }, err)) (w, false)
+  (sortS ((w.t.dp.keys.filter (fun k => (w.t.desired k).isNone)).eraseDups)).foldl W.delStep (w, false)
+
+/-- One `RouteReplace` of the update pass.  A failing RouteReplace is an error only if the interface is up in
+the kernel; otherwise the interface is queued for a rescan (`filterErrorByIfaceState`). -/
+def W.updStep (acc : W × Bool) (k : String) : W × Bool :=
+  match acc.1.t.desired k with
+  | none => acc
+  | some r =>
+    if acc.1.f.replace then
+      let w := { acc.1 with f := { acc.1.f with replace := false } }
+      match w.t.ifaceName r.ifindex with
+      | none => (w, true)
+      | some name =>
+        match w.kif.get name with
+        | some ki => if ki.up then (w, true) else ({ w with t := { w.t with rescan := sAdd w.t.rescan name } }, acc.2)
+        | none => ({ w with t := { w.t with rescan := sAdd w.t.rescan name } }, acc.2)
+    else ({ acc.1 with K := acc.1.K.set k r, t := { acc.1.t with dp := acc.1.t.dp.set k r } }, acc.2)
 
 /-- Update pass of `applyUpdates`. -/
 def W.updatePass (w : W) : W × Bool :=
-  let ups := sortS (w.t.desiredKeys.filter (fun k => w.t.desired k != w.t.dp.get k))
-  ups.foldl (fun (acc : W × Bool) k =>
-    let (w, err) := acc
-    match w.t.desired k with
-    | none => (w, err)
-    | some r =>
-      if w.f.replace then ({ w with f := { w.f with replace := false } }, true)
-      else ({ w with K := w.K.set k r, t := { w.t with dp := w.t.dp.set k r } }, err)) (w, false)
+  (sortS (w.t.desiredKeys.filter (fun k => w.t.desired k != w.t.dp.get k))).foldl W.updStep (w, false)
 
 /-- `attemptApply`. -/
 def W.attempt (w : W) : W × Bool :=
-  let (w, e) := if w.t.fullResync then w.fullResync else (w, false)
+  let (w, e) := if w.t.fullResync then w.fullResync else (w.resyncIfaces, false)
   if e then (w, true)
   else
     let (w, e1) := w.deletePass
     let (w, e2) := w.updatePass
     (w, e1 || e2)
 
-/-- `Apply`: one attempt plus one inline retry on error.  `true` = error returned. -/
+/-- `Apply`: one attempt, one inline retry on error or when interfaces are still queued for a rescan;
+an error is also returned when interfaces remain queued.  `true` = error returned. -/
 def W.apply (w : W) : W × Bool :=
-  let (w, e) := w.attempt
-  if e then w.attempt else (w, false)
+  let (w1, e1) := w.attempt
+  let (w2, e2) := if e1 || !w1.t.rescan.isEmpty then w1.attempt else (w1, e1)
+  (w2, e2 || !w2.t.rescan.isEmpty)
+
+/-! ### The operations the driver replays (the histories the theorems quantify over) -/
+
+/-- An interface event in the kernel, reported to Felix (`OnIfaceStateChanged`): `st = some up?` or `none` =
+the interface is gone.  The kernel drops the routes of an interface that goes down or away, and those on
+the old index of an interface that is re-created with another index. -/
+def W.ifaceEvent (w : W) (n : String) (i : Nat) (st : Option Bool) : W :=
+  let v : Option Iface := match st with | none => none | some up => some ⟨i, up⟩
+  let kif := match v with | some x => w.kif.set n x | none => w.kif.erase n
+  let K := if st == some true then w.K else w.K.filter (fun p => p.2.ifindex != i)
+  let K := match w.kif.get n with
+    | some old => if old.idx != i then K.filter (fun p => p.2.ifindex != old.idx) else K
+    | none => K
+  { w with kif := kif, K := K, t := w.t.setIface n v }
+
+inductive Op where
+  | iface (n : String) (idx : Nat) (st : Option Bool)
+  | kroute (c : String) (r : KRoute)        -- somebody else programs a route
+  | kdel (c : String)                       -- somebody else deletes a route
+  | set (cls : Nat) (ifc : String) (ws : List Want)
+  | upd (x : Want)
+  | rem (cls : Nat) (ifc c : String)
+  | resync                                  -- `QueueResync`
+  | apply (f : Fails)                       -- `Apply` with the given injected failures
+deriving Repr
+
+/-- One operation; for `apply` also whether it returned an error. -/
+def W.stepOp (w : W) : Op → W × Option Bool
+  | .iface n i st => (w.ifaceEvent n i st, none)
+  | .kroute c r => ({ w with K := w.K.set c r }, none)
+  | .kdel c => ({ w with K := w.K.erase c }, none)
+  | .set cls ifc ws => ({ w with t := w.t.setRoutes cls ifc ws }, none)
+  | .upd x => ({ w with t := w.t.routeUpdate x }, none)
+  | .rem cls ifc c => ({ w with t := w.t.routeRemove cls ifc c }, none)
+  | .resync => ({ w with t := { w.t with fullResync := true } }, none)
+  | .apply f =>
+    let r := ({ w with f := f } : W).apply
+    ({ r.1 with f := {} }, some r.2)
+
+/-- A whole history. -/
+def W.run (w : W) (ops : List Op) : W := ops.foldl (fun w o => (w.stepOp o).1) w
 
 end CalicoVerif.C17
